@@ -138,7 +138,9 @@ Definition exe_writers_allowed : list string :=
    "SZ_Init"; "SZ_Init_Params"; "SZ_compress_args"; "SZ_compress_args_perCall"; "SZ_decompress"; "SZ_getMetadata";
    "SZ_compress_double_1D_MDQ_pwrGroup"; "SZ_compress_float_1D_MDQ_pwrGroup"; "decompressDataSeries_double_1D_pwrgroup"; "decompressDataSeries_float_1D_pwrgroup";
    (* the time-step readers reset exe_params wholesale, as SZ_decompress does (they are C17's subject and are not operations of this model) *)
-   "SZ_decompress_ts"; "SZ_decompress_ts_select_var"].
+   "SZ_decompress_ts"; "SZ_decompress_ts_select_var";
+   (* the thread-safe customize entry re-derives the quantisation state from the configuration, as SZ_compress_args_perCall does *)
+   "SZ_compress_customize_threadsafe"].
 Definition source_facts_ok : bool :=
   forallb write_allowed src_cpr_writes
   && forallb (fun w => let '(_, fn, _) := w in existsb (String.eqb fn) exe_writers_allowed) src_exe_writes
